@@ -114,3 +114,40 @@ Theorem C14_ignored_never_followed :
            (tree_edges t).
 Proof. exact ignored_never_followed. Qed.
 Print Assumptions C14_ignored_never_followed.
+
+(* The feature list of a basin definition restricts what the basin offers:
+   every feature a dataset lists as basin feature, or serves from a basin,
+   is attributable to one of its own available basins whose definition
+   declares no list or declares this feature (at every nesting depth, since
+   the dataset behind a basin is a built tree itself). *)
+Theorem C14_offered_within_declared :
+  forall (w : world) (fuel : nat) (fm : fmt) (i : nat) (ign : list Z)
+         (t : tree) (feat : Z),
+    build w fuel fm i ign = Some t ->
+    offered w t feat ->
+    exists rb, In rb (map fst (kids_list (tree_kids t)))
+               /\ rb_avail rb = true
+               /\ (forall fs, b_feats (rb_b rb) = Some fs -> In feat fs).
+Proof. exact offered_within_declared. Qed.
+Print Assumptions C14_offered_within_declared.
+
+(* Bridge to the tree under test (regenerated on every run): the values of
+   `_local_basins_allowed` per dataset class, the basin_type / basin_format /
+   loaded dataset class per basin class, and the presence of the refusals in
+   basins_retrieve are the ones the model was written for. *)
+From Verif Require Import Gen.BasinFlags Proofs.C14_flags.
+
+Theorem C14_flags_as_modelled :
+  gen_local_allowed = model_local_allowed
+  /\ gen_has_basin_dicts = model_has_basin_dicts
+  /\ gen_basin_classes = model_basin_classes
+  /\ gen_retrieve_guard = (true, true, true).
+Proof. exact flags_as_modelled. Qed.
+Print Assumptions C14_flags_as_modelled.
+
+Theorem C14_model_flags_in_code :
+  (forall fm, In (fmt_name fm, local_allowed fm) gen_local_allowed)
+  /\ (forall c, In (class_name c, (type_name (class_type c), loads_name c))
+                   gen_basin_classes).
+Proof. exact model_flags_in_code. Qed.
+Print Assumptions C14_model_flags_in_code.
